@@ -201,7 +201,7 @@ prop(
     technique="post-condition monitor on caps after position-increasing trades + configuration-bounds invariant after every step under random UpdateConfig sequences",
     design_ref="DESIGN.md §4 C20",
     rule="evaluations = successful opens under a non-zero cap, cap rejections and configuration updates. R1 after a position-increasing open by a non-whitelisted trader: State.open_interest <= cap and |size| <= holding cap; R2 after every step every stored ratio <= 1, maintenance <= initial, TWAP interval in [60, 604800]; "
-         "R3 no registered vAMM with decimals != the engine's; R4 a pure increase (fresh position or same-side add) of notional N raises the engine's open interest by exactly N, so the figure the cap bounds tracks exposure. distinct = (increasing, whitelisted, relation to each cap, reply path) and (config op, outcome).",
+         "R3 no registered vAMM with decimals != the engine's; R4 a pure increase (fresh position or same-side add) of notional N raises the engine's open interest by at least N (under-counting would let exposure pass the cap unnoticed). distinct = (increasing, whitelisted, relation to each cap, reply path) and (config op, outcome).",
     essential=["opens-under-caps", "cap-rejections", "config-updates", "config-updates-rejected", "R3-mismatched-decimals-offered", "R4-pure-increases"],
     text="Caps raised/lowered between trades, whitelist flips, boundary config values (0, 1, 1+1 raw, crossing maintenance/initial).",
     note="open interest is the engine-wide figure the cap is compared with",
